@@ -322,6 +322,45 @@ pub fn run(args: &[String]) -> i32 {
             }
         }
     }
+    // 2b. a file-only type mapping also governs the imports of multi-file mode: a mapped name is not imported from a crate
+    //     that happens to define a type of that name
+    {
+        for lang in [Lang::TypeScript, Lang::Kotlin] {
+            for via in ["-c", "cwd"] {
+                for reference in ["qualified-path", "use"] {
+                    let sc = Scratch::new("c20m");
+                    let (use_line, ty) = if reference == "use" { ("use models::Stamp;\n", "Stamp") } else { ("", "models::Stamp") };
+                    sc.write("ws/app/src/lib.rs", format!("{use_line}use models::Page;\n#[typeshare]\npub struct Entry {{ pub at: {ty}, pub page: Page }}\n").as_bytes());
+                    sc.write("ws/models/src/lib.rs", b"#[typeshare]\npub struct Stamp { pub secs: u32 }\n#[typeshare]\npub struct Page { pub n: u32 }\n");
+                    let table = if lang == Lang::TypeScript { "[typescript.type_mappings]\nStamp = \"string\"\n" } else { "[kotlin]\npackage = \"p.q\"\n[kotlin.type_mappings]\nStamp = \"String\"\n" };
+                    sc.mkdir("out");
+                    let mut args = vec![s("--lang"), s(lang.name())];
+                    let cwd = if via == "-c" {
+                        let p = sc.write("elsewhere/custom.toml", table.as_bytes());
+                        args.extend([s("-c"), p.to_string_lossy().into_owned()]);
+                        ""
+                    } else {
+                        sc.write("proj/typeshare.toml", table.as_bytes());
+                        "proj"
+                    };
+                    args.extend([s("-d"), sc.path("out").to_string_lossy().into_owned(), sc.path("ws").to_string_lossy().into_owned()]);
+                    let r = run_cli(&args, &sc.path(cwd), &[], cli::TIMEOUT);
+                    table_runs += 1;
+                    let app = std::fs::read_to_string(sc.path(&format!("out/app.{}", lang.ext()))).unwrap_or_default();
+                    let import_lines: Vec<&str> = app.lines().filter(|l| l.trim_start().starts_with("import ") && !l.contains("kotlinx")).collect();
+                    let mapped_field = app.contains(if lang == Lang::TypeScript { "at: string" } else { "val at: String" });
+                    let stray = import_lines.iter().any(|l| l.split(|c: char| !c.is_alphanumeric() && c != '_').any(|t| t == "Stamp"));
+                    let page_imported = import_lines.iter().any(|l| l.split(|c: char| !c.is_alphanumeric() && c != '_').any(|t| t == "Page"));
+                    if r.class() != "ok" || !mapped_field || stray || !page_imported {
+                        rep.vios.add(Violation {
+                            sig: format!("C20|{}|file-only-setting-not-applied|type_mappings-vs-imports|reference={reference}|via={via}|{}", lang.name(), if r.class() != "ok" { "run-failed" } else if !mapped_field { "field-not-mapped" } else if stray { "mapped-name-still-imported" } else { "other-import-lost" }),
+                            detail: json!({"config": table, "argv": args, "exit": r.class(), "stderr": r.stderr.chars().take(600).collect::<String>(), "app_output": app, "import_lines": import_lines}),
+                        });
+                    }
+                }
+            }
+        }
+    }
     // 3. discovery: ancestor search from cwd depth 0..3, nearest file wins, -c beats discovery
     let mut discovery_runs = 0u64;
     {
